@@ -52,7 +52,7 @@ pub fn search_c17(r: &mut Report, tier: &str) {
 pub fn search_c18(r: &mut Report, tier: &str) {
     let depth = if tier == "thorough" { 5 } else { 4 };
     r.target = "Orswot / VClock / MVReg::reset_remove(c): exactly the dots covered by c are forgotten (C18)".into();
-    r.bound = format!("all Orswot states reached by <= {} generator steps x all clocks over actors {{1,2}} with counters 0..=3; reset twice == reset once; then a merge with the pre-reset state is compared with the denotation of pending removes; MVReg: 3 writes x same clocks", depth);
+    r.bound = format!("all Orswot states reached by <= {} generator steps x all clocks over actors {{1,2}} with counters 0..=3; reset twice == reset once; reset by c1 then c2 == reset by their join (Orswot, MVReg, and Map<u8,MVReg> states reached by <= 4 (quick) / 5 (thorough) steps incl. pending key removes); MVReg: 3 writes x same clocks", depth);
     let sts = states(depth);
     let sub = |x: &BTreeMap<u8, u64>, c: &VClock<u8>| -> BTreeMap<u8, u64> { x.iter().filter(|(a, n)| **n > c.get(a)).map(|(a, n)| (*a, *n)).collect() };
     for (o, d) in &sts {
@@ -81,6 +81,32 @@ pub fn search_c18(r: &mut Report, tier: &str) {
         let want = clock_of(&[if x1 > c1 { x1 } else { 0 }, if x2 > c2 { x2 } else { 0 }]);
         r.case("vclock.reset_remove_exact", x == want, &|| format!("{:?} reset_remove {:?}", [x1, x2], [c1, c2]), &|| format!("got {:?}", x));
     } } } }
+    // reset_remove composes: forgetting c1 and then c2 is forgetting their join (structurally: pending removes and nested
+    // values included) -- Orswot, MVReg and Map<u8, MVReg> states
+    for (o, d) in sts.iter() {
+        for c1 in 0..3u64 { for c2 in 0..3u64 { for e1 in 0..3u64 { for e2 in 0..3u64 {
+            let (ca, cb) = (clock_of(&[c1, c2]), clock_of(&[e1, e2]));
+            let mut j = ca.clone(); j.merge(cb.clone());
+            let mut x = o.clone(); x.reset_remove(&ca); x.reset_remove(&cb);
+            let mut y = o.clone(); y.reset_remove(&j);
+            r.case("orswot.reset_remove_composes", x == y, &|| format!("[{}] reset_remove({:?}) then ({:?}) vs join", d, ca, cb), &|| format!("{:?} != {:?}", x, y));
+            if r.failures > 0 { return; }
+        } } } }
+    }
+    for (m, d) in crate::c05::map_states(if tier == "thorough" { 5 } else { 4 }) {
+        for c1 in 0..3u64 { for c2 in 0..3u64 { for e1 in 0..3u64 { for e2 in 0..3u64 {
+            let (ca, cb) = (clock_of(&[c1, c2]), clock_of(&[e1, e2]));
+            let mut j = ca.clone(); j.merge(cb.clone());
+            let mut x = m.clone(); x.reset_remove(&ca); x.reset_remove(&cb);
+            let mut y = m.clone(); y.reset_remove(&j);
+            r.case("map.reset_remove_composes", x == y, &|| format!("[{}] reset_remove({:?}) then ({:?}) vs join", d, ca, cb), &|| format!("{:?} != {:?}", x, y));
+            let mut z = m.clone(); z.reset_remove(&ca);
+            let cl: BTreeMap<u8, u64> = m.read_ctx().add_clock.dots.iter().filter(|(a, n)| **n > ca.get(a)).map(|(a, n)| (*a, *n)).collect();
+            let keys_ok = (0..3u8).all(|k| { let (g0, g1) = (m.get(&k), z.get(&k)); let want: BTreeMap<u8, u64> = g0.rm_clock.dots.iter().filter(|(a, n)| **n > ca.get(a)).map(|(a, n)| (*a, *n)).collect(); g1.rm_clock.dots == want && g1.val.is_some() == (g0.val.is_some() && !want.is_empty()) });
+            r.case("map.reset_remove_exact_keys", z.read_ctx().add_clock.dots == cl && keys_ok, &|| format!("[{}] reset_remove({:?})", d, ca), &|| format!("{:?}", z));
+            if r.failures > 0 { return; }
+        } } } }
+    }
     // MVReg: a value is forgotten iff its whole context is covered; contexts of survivors are untouched... (value clocks are reduced)
     let mut reg: MVReg<u8, u8> = MVReg::new();
     let w1 = reg.write(1, reg.read().derive_add_ctx(1)); reg.apply(w1);
@@ -94,6 +120,18 @@ pub fn search_c18(r: &mut Report, tier: &str) {
         // values: 2 with context {1:2}, 3 with context {1:1, 2:1}
         let mut want = vec![]; if 2 > c1 { want.push(2u8); } if 1 > c1 || 1 > c2 { want.push(3u8); }
         r.case("mvreg.reset_remove_values", got == want, &|| format!("values {{2:[1:2], 3:[1:1,2:1]}} reset_remove {:?}", [c1, c2]), &|| format!("got {:?} want {:?}", got, want));
+        // the contexts of the surviving values are reduced by exactly the covered dots
+        let mut want_ctx = VClock::new();
+        if 2 > c1 { want_ctx.apply(Dot::new(1u8, 2)); }
+        if 1 > c1 { want_ctx.apply(Dot::new(1u8, 1)); }
+        if 1 > c2 { want_ctx.apply(Dot::new(2u8, 1)); }
+        r.case("mvreg.reset_remove_contexts", r2.read().add_clock == want_ctx, &|| format!("values {{2:[1:2], 3:[1:1,2:1]}} reset_remove {:?}", [c1, c2]), &|| format!("got {:?} want {:?}", r2.read().add_clock, want_ctx));
+        for e1 in 0..4u64 { for e2 in 0..3u64 {
+            let cb = clock_of(&[e1, e2]); let mut j = c.clone(); j.merge(cb.clone());
+            let mut x = reg.clone(); x.reset_remove(&c); x.reset_remove(&cb);
+            let mut y = reg.clone(); y.reset_remove(&j);
+            r.case("mvreg.reset_remove_composes", x == y, &|| format!("reset_remove {:?} then {:?} vs join", [c1, c2], [e1, e2]), &|| format!("{:?} != {:?}", x, y));
+        } }
     } }
 }
 
